@@ -12,27 +12,33 @@ from . import _cat
 def run(tier, replay=None):
     rep = Report("C11", tier, "exploration")
     cells = cxx.QUICK_CELLS if tier == "quick" else cxx.FOUR_CELLS
-    todo = [("kinds", kinds.kinds_schema("littleEndian"))]
+    PLAIN = ("char", "const char")
+    todo = [("kinds", kinds.kinds_schema("littleEndian"), PLAIN)]
+    # other byte types: the read-only one is `const` plus something else (cv propagation into element / reference / pointer types)
+    todo += [("kinds", kinds.kinds_schema("littleEndian"), b) for b in [("volatile char", "const volatile char"), ("unsigned char", "const unsigned char")]]
     cat = shapes.catalogue(tier)
     step = max(1, len(cat) // (5 if tier == "quick" else 20))
-    todo += [("catalogue", s) for s, _ in cat[::step]]
+    todo += [("catalogue", s, PLAIN) for s, _ in cat[::step]]
+    if tier != "quick":
+        todo += [("catalogue", s, ("volatile unsigned char", "const volatile unsigned char")) for s, _ in cat[::step * 4]]
     rep.set("bounds", {"schemas": "kinds + a stride of the catalogue (%d schemas)" % len(todo),
                        "mutators": "every field / composite-member setter, set_by_tag, cursor setters (plain and wrapped), fill_message_header, fill_group_header, header setters, group resize/clear, every dynamic_array_ref and static_array_ref mutator overload, element assignment through operator[] / iterators / front / back / data / raw()",
                        "combinations": "(V<const B>), (V<const B>, cursor<B>), (V<B>, cursor<const B>), (V<const B>, cursor<const B>); positive control on the mutable twin",
                        "derived_views": "every view-returning accessor (group, data, composite, array; entries through [] / front / back / iterators / cursor_range / cursor_begin / cursor_subrange) named and through get_by_tag, without cursor and with cursor x {plain, init, dont_move, init_dont_move} on every view/cursor constness combination: the resulting view's byte type must be const unless view and cursor are both mutable",
+                       "byte_types": "B / const B for B = char on every schema; volatile char / const volatile char and unsigned char / const unsigned char on the kinds schema (thorough: volatile unsigned char on a stride of the catalogue)",
                        "conversions": "V<B> <-> V<const B> for every view / entry / array / data type and cursors",
                        "run_time": "every getter, size query, iterator, cursor traversal, get_by_tag and visit on an image mapped PROT_READ",
                        "cells": [cxx.cell_name(c) for c in cells]})
     wd = cxx.workdir("c11-" + tier)
 
     def one(item):
-        fam, s = item
-        root = os.path.join(wd, s.package)
+        fam, s, bytes_ = item
+        root = os.path.join(wd, s.package + "-" + bytes_[1].replace(" ", "_"))
         sb = build.SchemaBuild(s, root)
         if not sb.generate():
             return fam, s, None, "rejected: " + sb.log[-500:]
         rmsgs = layout.Resolver(s).messages()
-        src, cp = constx.stage1_source(s, rmsgs, sb.top_header())
+        src, cp = constx.stage1_source(s, rmsgs, sb.top_header(), bytes_)
         cpp = os.path.join(root, "probes.cpp")
         open(cpp, "w").write(src)
         results = []
@@ -56,7 +62,8 @@ def run(tier, replay=None):
         sb, cp, results = res
         byid = {p.pid: p for p in cp.probes}
         dbyid = {p.pid: p for p in cp.derived}
-        rep.distinct("distinct_nontrivial", s.package)
+        rep.distinct("distinct_nontrivial", (s.package, cp.bytes))
+        bt = "" if cp.bytes[0] == "char" else ":bytes=" + cp.bytes[1].replace(" ", "-")
         for cell, kind, out, rc in results:
             cn = cxx.cell_name(cell)
             if kind == "compile":
@@ -94,8 +101,8 @@ def run(tier, replay=None):
                     elif inv == 1:
                         derived_neg += 1
                         if cb != 1:
-                            rep.violation("mutable-view-from-const:%s:%s" % (p.kind, combo),
-                                          {"schema": s.package, "cell": cn, "msg": "%s: `%s` on %s yields a view with a mutable byte type" % (s.package, p.what, combo)})
+                            rep.violation("mutable-view-from-const:%s:%s%s" % (p.kind, combo, bt),
+                                          {"schema": s.package, "bytes": cp.bytes[1], "cell": cn, "msg": "%s: `%s` on %s yields a view with a mutable byte type" % (s.package, p.what, combo)})
                     elif combo != "const-view/mut-cursor" and p.cursor is False:
                         rep.harness_error("%s: getter %s not invocable on %s" % (s.package, p.what, combo))
                 elif w[0] == "CONV":
@@ -119,13 +126,14 @@ def run(tier, replay=None):
         open(f2, "w").write(constx.stage2_source(s, sb.top_header(), cp, p, combo))
         ok2, log2 = cxx.syntax(cell, f2, includes=[sb.inc], defines=["SBEPP_ENABLE_ASSERTS_WITH_HANDLER"])
         os.unlink(f2)
-        return s, cn, p, combo, ok2
+        return s, cn, p, combo, ok2, cp.bytes
 
-    for s, cn, p, combo, ok2 in cxx.pmap(stage2_one, stage2_jobs):
+    for s, cn, p, combo, ok2, cpb in cxx.pmap(stage2_one, stage2_jobs):
         stage2 += 1
         if ok2:
-            rep.violation("const-mutator-compiles:%s:%s" % (p.kind, combo),
-                          {"schema": s.package, "cell": cn, "msg": "%s: `%s` compiles for %s" % (s.package, p.what, combo)})
+            bt = "" if cpb[0] == "char" else ":bytes=" + cpb[1].replace(" ", "-")
+            rep.violation("const-mutator-compiles:%s:%s%s" % (p.kind, combo, bt),
+                          {"schema": s.package, "cell": cn, "bytes": cpb[1], "msg": "%s: `%s` compiles for %s (read-only byte type `%s`)" % (s.package, p.what, combo, cpb[1])})
     # run-time: non-mutating operations on a read-only mapping
     rcells = cells[:1] if tier == "quick" else cells
     rschemas = shapes.catalogue(tier, "littleEndian")
